@@ -1,8 +1,66 @@
-import Magog.Model.Eval
-import Magog.Model.Time
+import Magog.Model.Search
 
-/-! Property C05 — theorems (see DESIGN §5). -/
+/-! Property C05 — mate and stalemate: score arithmetic and formatting (on regenerated constants). -/
 
 namespace Magog.Props.C05
+open Magog Magog.Model
+
+/-- the mate-score band is far outside the band of `cp` scores: a mate in up to 79 000 plies is still
+    recognised as a mate score, and no score within `ScoreCloseToMate` is -/
+theorem score_bands : (Gen.ScoreCloseToMate : Int) + 79000 < -Gen.LostScore ∧ (0 : Int) < Gen.ScoreCloseToMate := by
+  decide
+
+/-- a score inside the evaluation band is printed as `cp` with its exact value -/
+theorem format_cp (s : Int) (h : s.natAbs ≤ Gen.ScoreCloseToMate) : formatScore s = .cp s := by
+  unfold formatScore closeToMate
+  have : ¬ (s.natAbs > Gen.ScoreCloseToMate) := by omega
+  simp [this]
+
+/-- the side to move mates in `k` plies (k odd in play; the formula is total): `mate ⌈k/2⌉` -/
+theorem format_mate_win (k : Nat) (hk : k ≤ 79000) :
+    formatScore (-Gen.LostScore - (k : Int)) = .mate (((k + 1) / 2 : Nat) : Int) := by
+  unfold formatScore closeToMate fullMovesToMate
+  simp only [Gen.LostScore, Gen.ScoreCloseToMate]
+  have h1 : (-(-100000 : Int) - (k : Int)).natAbs > 20800 := by omega
+  have h2 : ¬ (-(-100000 : Int) - (k : Int) < 0) := by omega
+  simp only [h1, decide_true, ↓reduceIte, h2]
+  congr 1
+  have : (1 : Int) * (-(-100000 : Int) - (-(-100000) - (k : Int)) + 1) = ((k + 1 : Nat) : Int) := by omega
+  rw [this, Int.tdiv_eq_ediv_of_nonneg (by omega)]
+  omega
+
+/-- the side to move is mated in `k` plies (k even in play): `mate -(k/2)` rounded towards zero from
+    `-(k+1)/2`, i.e. `mate -⌊(k+1)/2⌋` -/
+theorem format_mate_lose (k : Nat) (hk : k ≤ 79000) :
+    formatScore (Gen.LostScore + (k : Int)) = .mate (-(((k + 1) / 2 : Nat) : Int)) := by
+  unfold formatScore closeToMate fullMovesToMate
+  simp only [Gen.LostScore, Gen.ScoreCloseToMate]
+  have h1 : ((-100000 : Int) + (k : Int)).natAbs > 20800 := by omega
+  have h2 : ((-100000 : Int) + (k : Int) < 0) := by omega
+  simp only [h1, decide_true, ↓reduceIte, h2]
+  congr 1
+  have : (-1 : Int) * (-(-100000 : Int) - -((-100000 : Int) + (k : Int)) + 1) = -((k + 1 : Nat) : Int) := by omega
+  rw [this, Int.neg_tdiv, Int.tdiv_eq_ediv_of_nonneg (by omega)]
+  omega
+
+/-- `pliesToMate` recovers the distance from either sign of a mate score -/
+theorem pliesToMate_eq (k : Nat) (hk : k ≤ 79000) :
+    pliesToMate (-Gen.LostScore - (k : Int)) = k ∧ pliesToMate (Gen.LostScore + (k : Int)) = k := by
+  unfold pliesToMate
+  simp only [Gen.LostScore]
+  omega
+
+/-- the root early exit fires exactly on "the move just searched mates next ply" -/
+theorem nextMoveWins_iff (s : Int) : nextMoveWins s = true ↔ s = -Gen.LostScore - 1 := by
+  simp [nextMoveWins]
+
+/-- terminal scoring: mate score at the node's depth iff in check, draw otherwise (model of
+    `terminalNodeScore`; `isCurrentKingUnderCheck` is tied to the rules by C09) -/
+theorem terminal_class (p : Position) (depth : Int) (chk : Bool) (h : isCurrentKingUnderCheck p = .ok chk) :
+    terminalNodeScore p depth = .ok (if chk then Gen.LostScore + depth else Gen.DrawScore) := by
+  simp [terminalNodeScore, h, bind, Except.bind, pure, Except.pure]
+
+example : formatScore 99999 = .mate 1 ∧ formatScore (-99998) = .mate (-1) ∧ formatScore 99997 = .mate 2 ∧
+    formatScore (-20800) = .cp (-20800) ∧ formatScore 20801 = .mate 39600 := by decide
 
 end Magog.Props.C05
